@@ -1366,6 +1366,22 @@ def directed_specs():
     mk("default-pattern-1", lambda sp: sp["patterns"].append({"name": "1", "mult": [0.5, 2.0]}))
     mk("quality-ug", lambda sp: (sp["junctions"][0].update(iq=0.0005), sp["sources"].append({"name": "INP1", "node": "J1", "type": "CONCEN", "strength": 0.001, "pat": None}),
                                  sp["options"].update(quality={"parameter": "CHEMICAL", "chemical_name": "Cl", "inpfile_units": "ug/L"})))
+    def shared(sp):
+        # one curve of every type with 2-3 users each (every reader section converts "its" curve: a second user must not convert it again)
+        sp["curves"] += [{"name": "VC", "type": "VOLUME", "pts": [[0.0, 0.0], [3.0, 80.0], [8.0, 300.0]]},
+                         {"name": "HC", "type": "HEAD", "pts": [[0.0, 40.0], [0.05, 30.0], [0.1, 10.0]]},
+                         {"name": "EC", "type": "EFFICIENCY", "pts": [[0.0, 50.0], [0.05, 75.0], [0.1, 60.0]]},
+                         {"name": "GC", "type": "HEADLOSS", "pts": [[0.0, 0.0], [0.05, 3.0], [0.1, 9.0]]}]
+        for k in (2, 3):
+            sp["tanks"].append({"name": "T%d" % k, "elev": 20.0 + k, "init": 3.0, "min": 1.0, "max": 5.0, "diam": 10.0, "minvol": 0.0, "overflow": False,
+                                "coords": [5.0 + k, 5.0], "volcurve": "VC"})
+            sp["pipes"].append({"name": "PT%d" % k, "a": "J2", "b": "T%d" % k, "len": 100.0, "diam": 0.3, "rough": 100.0, "mloss": 0.0, "status": "OPEN", "cv": False, "vertices": []})
+        for k in (1, 2, 3):
+            sp["pumps"].append({"name": "PU%d" % k, "a": "R1", "b": "J1", "type": "HEAD" if k < 3 else "POWER", "param": "HC" if k < 3 else 20000.0, "speed": 1.0,
+                                "pat": None, "status": "OPEN", "vertices": [], "eff": "EC"})
+        for k in (1, 2):
+            sp["valves"].append({"name": "G%d" % k, "a": "J1", "b": "J2", "diam": 0.2, "type": "GPV", "mloss": 0.0, "setting": "GC", "status": "ACTIVE", "vertices": []})
+    mk("shared-curves", shared)
     return out
 
 
@@ -1491,7 +1507,7 @@ class C12(Check):
             yield ("directed:" + label, sp, None, None)
         n = 40 if ctx.quick else 150
         for i in range(n):
-            yield ("gen%d" % i, G.gen_spec(ctx.rng, size=1 if i % 3 else 2, inp_only=True), None, None)
+            yield ("gen%d" % i, G.gen_spec(ctx.rng, size=1 if i % 3 else 2, inp_only=True, share_curves=True), None, None)
 
     def correspondence(self, ctx):
         wntr = vlib.import_wntr()
@@ -1652,7 +1668,7 @@ class C12(Check):
         try:
             with warnings.catch_warnings():
                 warnings.simplefilter("ignore")
-                specs = directed_specs() + [("wide%d" % i, G.gen_spec(ctx.rng, size=2, inp_only=True)) for i in range(6 if ctx.quick else 25)]
+                specs = directed_specs() + [("wide%d" % i, G.gen_spec(ctx.rng, size=2, inp_only=True, share_curves=True)) for i in range(6 if ctx.quick else 25)]
                 for label, sp in specs:
                     wn = G.realise(wntr, sp)
                     for u in UNITS:
